@@ -495,16 +495,21 @@ Qed.
 (* ---------- requests that do not touch permissions ---------- *)
 Definition acl_same (s s' : store) : Prop := forall v, sgiven s' v = sgiven s v /\ swant s' v = swant s v.
 (* cache entries keep their modes or disappear *)
+Definition no_sess (c : cache) (v : N) : Prop := forall sid b, ~ In (sid, (v, b)) (c_sess c).
 Definition cacl_shrink (c c' : cache) : Prop :=
-  forall v, (cgiven c' v = cgiven c v /\ cwant c' v = cwant c v) \/ (cgiven c' v = None /\ cwant c' v = None).
+  incl (c_sess c') (c_sess c) /\
+  forall v, (cgiven c' v = cgiven c v /\ cwant c' v = cwant c v) \/
+            (cgiven c' v = None /\ cwant c' v = None /\ no_sess c' v).
 Lemma acl_same_refl s : acl_same s s. Proof. split; reflexivity. Qed.
-Lemma cacl_shrink_refl c : cacl_shrink c c. Proof. left. split; reflexivity. Qed.
+Lemma cacl_shrink_refl c : cacl_shrink c c. Proof. split; [apply incl_refl|]. left. split; reflexivity. Qed.
 Lemma acl_same_trans a b c : acl_same a b -> acl_same b c -> acl_same a c.
 Proof. intros H1 H2 v. destruct (H1 v), (H2 v). split; congruence. Qed.
 Lemma cacl_shrink_trans a b c : cacl_shrink a b -> cacl_shrink b c -> cacl_shrink a c.
 Proof.
-  intros H1 H2 v. destruct (H2 v) as [[A B]|[A B]]; [|right; auto].
-  destruct (H1 v) as [[C D]|[C D]]; [left|right]; split; congruence.
+  intros [I1 H1] [I2 H2]. split; [eapply incl_tran; eauto|]. intros v.
+  destruct (H2 v) as [[A B]|[A [B N]]]; [|right; auto].
+  destruct (H1 v) as [[C D]|[C [D N]]]; [left; split; congruence|right].
+  split; [congruence|]. split; [congruence|]. intros sid b' HI. apply (N sid b'). apply I2. exact HI.
 Qed.
 
 Lemma acl_same_update_marks s u a b d : acl_same s (ad_subs_update s u (mkUpd None None a b d)).
@@ -520,24 +525,34 @@ Proof. unfold ad_msg_save. destruct (existsb _ _); intros H; inv H. apply acl_sa
 Lemma acl_same_delete_list s d fu rs : acl_same s (ad_msg_delete_list s d fu rs).
 Proof. unfold ad_msg_delete_list. destruct (fu =? 0)%N; intros v; split; reflexivity. Qed.
 
-Lemma cacl_sess c f : cacl_shrink c (c_set_sess f c). Proof. intros v. left. split; reflexivity. Qed.
-Lemma cacl_lastid c z : cacl_shrink c (c_set_lastid z c). Proof. intros v. left. split; reflexivity. Qed.
-Lemma cacl_delid c z : cacl_shrink c (c_set_delid z c). Proof. intros v. left. split; reflexivity. Qed.
+Lemma cacl_sess c f : incl (f (c_sess c)) (c_sess c) -> cacl_shrink c (c_set_sess f c).
+Proof. intros I. split; [exact I|]. intros v. left. split; reflexivity. Qed.
+Lemma cacl_lastid c z : cacl_shrink c (c_set_lastid z c). Proof. split; [apply incl_refl|]. intros v. left. split; reflexivity. Qed.
+Lemma cacl_delid c z : cacl_shrink c (c_set_delid z c). Proof. split; [apply incl_refl|]. intros v. left. split; reflexivity. Qed.
+Lemma aremove_incl {A} k (l : list (N * A)) : incl (aremove k l) l.
+Proof.
+  induction l as [|[k0 v0] l IH]; cbn; [apply incl_refl|].
+  destruct (N.eqb k k0); [apply incl_tl; exact IH|apply incl_cons; [now left|apply incl_tl; exact IH]].
+Qed.
 Lemma cacl_aset_same c u p p' :
   alookup u (c_users c) = Some p -> p_want p' = p_want p -> p_given p' = p_given p ->
   cacl_shrink c (c_set_users (aset u p') c).
 Proof.
-  intros H W G v. left. unfold cgiven, cwant. cbn [c_users c_set_users]. rewrite alookup_aset.
+  intros H W G. split; [apply incl_refl|]. intros v. left. unfold cgiven, cwant. cbn [c_users c_set_users]. rewrite alookup_aset.
   eqb_cases v u; [rewrite H; cbn; split; congruence|split; reflexivity].
 Qed.
 Lemma cacl_evict c u b k c' o : evict_user c u b k = (c', o) -> cacl_shrink c c'.
 Proof.
-  intros EV v. rewrite (evict_cgiven _ _ _ _ _ _ v EV), (evict_cwant _ _ _ _ _ _ v EV).
-  destruct (N.eqb v u && b); [right|left]; split; reflexivity.
+  intros EV. split; [rewrite (evict_sess _ _ _ _ _ _ EV); apply incl_filter|].
+  intros v. rewrite (evict_cgiven _ _ _ _ _ _ v EV), (evict_cwant _ _ _ _ _ _ v EV).
+  destruct (N.eqb v u && b) eqn:E; [right|left; split; reflexivity].
+  split; [reflexivity|]. split; [reflexivity|]. intros sid b' HI.
+  rewrite (evict_sess _ _ _ _ _ _ EV) in HI. apply filter_In in HI. destruct HI as [_ HI]. cbn in HI.
+  apply andb_prop in E. destruct E as [E _]. rewrite E in HI. discriminate.
 Qed.
 Lemma cacl_map_delid c d : cacl_shrink c (c_set_users (map (fun e => (fst e, p_set_delid d (snd e)))) c).
 Proof.
-  intros v. left. unfold cgiven, cwant. cbn [c_users c_set_users]. rewrite alookup_map.
+  split; [apply incl_refl|]. intros v. left. unfold cgiven, cwant. cbn [c_users c_set_users]. rewrite alookup_map.
   destruct (alookup v (c_users c)); split; reflexivity.
 Qed.
 
@@ -652,8 +667,8 @@ Proof.
   intros SM. unfold leave. destruct (alookup sid (c_sess c)) as [[su bkg]|] eqn:E; [|apply cacl_shrink_refl].
   cbn [fst]. apply alookup_in in E. apply SM in E. unfold member in E.
   cbn [c_users c_set_sess]. destruct (alookup su (c_users c)) as [p|] eqn:Ep; [|discriminate].
-  destruct bkg; [apply cacl_sess|].
-  eapply cacl_shrink_trans; [apply cacl_sess|]. apply cacl_aset_same with (p := p); auto.
+  destruct bkg; [apply cacl_sess; apply aremove_incl|].
+  eapply cacl_shrink_trans; [apply cacl_sess; apply aremove_incl|]. apply cacl_aset_same with (p := p); auto.
 Qed.
 
 (* ---------- one request ---------- *)
@@ -759,8 +774,8 @@ Proof.
   intros A C. unfold step_laws. repeat split.
   - intros v. left. apply A.
   - intros v. left. apply A.
-  - intros c' E v g' H. left. destruct (C c' E v) as [[G _]|[G _]]; congruence.
-  - intros c' E v w' H. left. destruct (C c' E v) as [[_ W]|[_ W]]; congruence.
+  - intros c' E v g' H. left. destruct (C c' E) as [_ C']. destruct (C' v) as [[G _]|[G _]]; congruence.
+  - intros c' E v w' H. left. destruct (C c' E) as [_ C']. destruct (C' v) as [[_ W]|[_ [W _]]]; congruence.
 Qed.
 
 Lemma laws_of_own x o s' c' n :
